@@ -6,7 +6,8 @@ from vlib import songgen
 ID = "C07"
 LEAN_MODULE = "Ctrmml.Properties.C07"
 THEOREMS = ["C07_multiples_of_147", "C07_tempo_closed_form", "C07_tempo_step_le_two", "C07_play_step_grid", "C07_log_on_grid",
-            "C07_attenuation_antitone", "C07_pitch_tables_sound", "C07_short_note_counterexample"]
+            "C07_attenuation_antitone", "C07_pitch_tables_sound", "C07_short_note_counterexample",
+            "C07_tick_delivery", "C07_update_ticks", "C07_key_frame_partial", "C07_key_frame_start", "C07_pitch_value_partial"]
 LEVEL = "proof"
 STREAM = "vgm.bytes"
 CHUNK = 25
@@ -18,8 +19,11 @@ LEVEL_TEXT = ("Machine-checked theorems over Model/MdDriver.lean: the play_step 
               "attenuation formulas in the volume setting, soundness of the regenerated frequency tables. The whole-log statements (key-on/"
               "key-off frame, pitch value, extent) are checked by the schedule oracle on every real export; the model reproduces every real "
               "file byte for byte.")
-LEVEL_NOTE = ("Partial: tick_delivery / keyon_frame / keyoff_frame / pitch_value / export_extent are kept as C07_full_statement and covered by "
-              "the spec oracle (Spec/Schedule on the real VGM log) and by byte-exact correspondence, not by a theorem. Trusted: Lean kernel, "
+LEVEL_NOTE = ("Partial: C07_tick_delivery covers the first pass of a track (up to its end / loop-back); C07_key_frame_partial is per update for "
+              "FM channels of tracks without SLUR (hypotheses: no platform/drum-mode events, step budget), composed with C07_update_ticks and "
+              "C07_play_step_grid by hand, not as one theorem over the log; C07_pitch_value_partial gives the computed/written words, not the "
+              "register-file replay; export_extent is NOT proved. These and PSG/slur/loop-pass cases stay in C07_full_statement, covered by "
+              "the spec oracle (Spec/Schedule on the real VGM log) and by byte-exact correspondence. Trusted: Lean kernel, "
               "Model/MdDriver.lean + PlayerCh + Vgm (agreement with the C++ by differential testing), Spec/Schedule.lean, Spec/VgmParse.lean.")
 RULE = ("IR songs of the plain playback subset: 1..9 FM/PSG channels (+ occasional noise/dummy channels and subroutine tracks), notes, rests, "
         "ties, slurs, counted loops with breaks, calls, loop point, BPM tempo 30..255 and native tempo 1..255 incl. mid-song changes, coarse/"
